@@ -26,7 +26,7 @@ RULE = ('for each generated model (tree generator of C13; one or two files; user
 REQUIRED = {'failed_loads': 400, 'objects_tracked': 3000, 'phase_provider': 20, 'phase_match_proc': 20, 'phase_obj_proc': 20,
             'phase_model_proc': 10, 'phase_init': 10, 'phase_syntax': 10, 'phase_unknown_ref': 10, 'phase_postponed': 10,
             'two_file_faults': 40, 'next_load_compared': 100,
-            'globalrepo_provider_string_model_faults': 100}
+            'globalrepo_provider_string_model_faults': 100, 'aborts_by_base_exception': 100}
 EXHAUSTIVE_CLAIM = False
 
 _tracked = []
@@ -47,6 +47,10 @@ def install_alloc_hook():
         return orig(self, obj)
     TextXMetaModel._init_obj_attrs = _init_obj_attrs
     _hook[0] = True
+
+
+class BoomBase(BaseException):
+    """aborts that are not Exceptions (KeyboardInterrupt, SystemExit, ...)"""
 
 
 class Boom(ValueError):
@@ -127,6 +131,8 @@ def one(ctx, i, rep=None):
                 fault['phase'] = None
                 if fault['exc'] == 'textx':
                     raise TextXError('injected %s failure' % phase)
+                if fault['exc'] == 'base':
+                    raise BoomBase('injected %s abort' % phase)
                 raise Boom('injected %s failure' % phase)
             fault['k'] -= 1
 
@@ -202,7 +208,7 @@ def one(ctx, i, rep=None):
         for phase, n in clean_counts.items():
             ks = list(range(n)) if n <= cap else sorted(set([0, 1, n - 1] + [r.randrange(n) for _ in range(cap - 3)]))
             for k in ks:
-                plan.append((phase, k, 'textx' if (k + len(phase)) % 2 else 'other'))
+                plan.append((phase, k, ['textx', 'other', 'base'][(k + len(phase)) % 3]))
         plan += [('syntax', 0, 'textx'), ('unknown_ref', 0, 'textx'), ('postponed', 0, 'textx')]
         if two_files:
             plan += [('syntax_imported', 0, 'textx'), ('unknown_ref_imported', 0, 'textx')]
@@ -223,8 +229,10 @@ def one(ctx, i, rep=None):
             try:
                 mdl = load(mm)
                 del mdl
-            except (TextXError, Boom, TypeError) as e:
+            except (TextXError, Boom, TypeError, BoomBase) as e:
                 failed = type(e).__name__ + ': ' + str(e)[:80]
+                if isinstance(e, BoomBase):
+                    ctx.count('aborts_by_base_exception')
             fault['phase'] = None
             pname = {'syntax_imported': 'syntax', 'unknown_ref_imported': 'unknown_ref'}.get(phase, phase)
             ctx.count('phase_' + pname)
